@@ -146,6 +146,12 @@ def _shard(args):
 
 
 SWEEP_QUICK = [0x00, 0x01, 0x7F, 0x80, 0xFF]
+try:  # every offset that has a register name is a class of its own for the renderer and the assembler (names instead of numbers)
+    from sc62015.pysc62015.instr.opcodes import IMEMRegisters as _IMR
+    NAMED = sorted({int(v) for v in _IMR.__members__.values()})
+except Exception:  # pragma: no cover
+    NAMED = list(range(0xEC, 0x100))
+SWEEP_QUICK = sorted(set(SWEEP_QUICK) | set(NAMED))
 
 
 def _shard_sweep(args):
@@ -166,8 +172,9 @@ def _shard_sweep(args):
                 continue
             classes.add(cls)
             k = (1 if pre is None else 2)
-            for pos in range(k + 1, ins.length()):        # the selector byte itself is enumerated structurally
-                for v in values:
+            for pos in range(k, ins.length()):        # the selector byte itself is enumerated structurally; as a plain operand byte it
+                for v in (values if pos > k else [x for x in NAMED if x != d[pos]]):      # still takes every offset that has a register name
+
                     dd = bytearray(d)
                     dd[pos] = v
                     r = judge(bytes(dd), vb, seen)
